@@ -24,7 +24,7 @@ from ..core.runner import Acc, guard, CaseTimeout, robust
 ID = 'C11'
 LEVEL = 'model_checking'
 TECHNIQUE = 'exhaustive exploration of mutation histories after each copy route on real objects; other-side/sibling/class invariance, differential post-histories, object-graph sharing walk'
-RULE = ('5 object kinds x 5 pre-histories x 3 copy routes x 2 sides x all post-histories of <= 2 (quick) / 3 (thorough) ops from a ~20-op mutation '
+RULE = ('5 object kinds x 5 pre-histories (+ every single operation) x 5 copy routes (copy(), copy.copy, copy.deepcopy, a second copy(), copy() followed by handing the copy the original\'s own arrays) x 2 sides x all post-histories of <= 2 (quick) / 3 (thorough) ops from a ~25-op mutation '
         'alphabet; states = distinct (kind, pre, route) configurations, transitions = operations applied, traces = scenarios checked; '
         'non-trivial = scenario in which the mutated side changed')
 ASSUMPTIONS = [
